@@ -12,6 +12,8 @@ and saw and what the client reported:
   msg items        one slice received on msgsFromPanel (each message as canonical marshalled bytes)
   sub g i items    goroutine g hands over submission i (marshalled messages); lin g i items = converter lines
   dec i items      the decoder's output for vocabulary entry i (opaque: Unmarshal / ASCII decoder)
+  dex i items      the same for the other mode's decoder (scripts whose connections negotiate different modes)
+  big g i n size   goroutine g hands over submission i: n graphics states of `size` image bytes (bytes not listed)
   det b            return value of the stand-alone detector
   cancel, ret, heap n, panic
 
@@ -81,14 +83,19 @@ def probe : Bytes := encodeFrame pingPayload
 
 inductive Act
   | waitRx (n ms : Nat) | hs | write (b : Bytes) | sleep (ms : Nat) | close | reset | waitEof (ms : Nat)
+  | pause | resume            -- the panel stops / resumes reading what the client writes
   deriving DecidableEq, Repr
 
 inductive SubAct
-  | hs | submit (items : List Bytes) | sleep (ms : Nat)
+  | hs (k : Nat)              -- wait for the k-th onconnect (1-based)
+  | submit (items : List Bytes) | sleep (ms : Nat)
+  | big (count size : Nat)    -- one list of `count` graphics states of `size` image bytes
   deriving DecidableEq, Repr
 
 structure Script where
   binary : Bool := true
+  /-- per connection: what that connection's script negotiates (empty: `binary` on every connection) -/
+  modes : List Bool := []
   retryS : Nat := 1
   endMs : Nat := 300
   voc : List Bytes := []
@@ -103,6 +110,7 @@ inductive Ev
   | cancel | ret | noret | wg | nowg
   | sub (g i : Nat) (items : List Bytes) | lin (g i : Nat) (items : List Bytes)
   | heap (n : Nat) | panic | det (b : Bool) | dec (i : Nat) (items : List Bytes) | ping (b : Bytes)
+  | dex (i : Nat) (items : List Bytes) | big (g i count size : Nat)
   | other
   deriving DecidableEq, Repr
 
@@ -191,17 +199,35 @@ def decOf (tr : Trace) (i : Nat) : Option (List Bytes) :=
     | .dec j items => if i = j then some items else decOf r i
     | _ => decOf r i
 
-/-- the decoder's output for a payload / trimmed line (looked up through the vocabulary) -/
-def decode (sc : Script) (tr : Trace) (p : Bytes) : Option (List Bytes) :=
+def dexOf (tr : Trace) (i : Nat) : Option (List Bytes) :=
+  match tr with
+  | [] => none
+  | e :: r => match e.e with
+    | .dex j items => if i = j then some items else dexOf r i
+    | _ => dexOf r i
+
+/-- the `binary` flag of an `onconnect` event equals `bin` -/
+def conIs (bin : Bool) : Ev → Bool
+  | .con b _ => b == bin
+  | _ => false
+
+/-- the mode connection `k` of the script negotiates -/
+def connBinary (sc : Script) (k : Nat) : Bool := (sc.modes[k]?).getD sc.binary
+
+/-- the decoder's output (of the decoder of mode `bin`) for a payload / trimmed line, looked up through the vocabulary -/
+def decodeM (sc : Script) (tr : Trace) (bin : Bool) (p : Bytes) : Option (List Bytes) :=
   match sc.voc.idxOf? p with
-  | some i => decOf tr i
+  | some i => if bin = sc.binary then decOf tr i else dexOf tr i
   | none => none
 
-def decodeAll (sc : Script) (tr : Trace) : List Bytes → Option (List (List Bytes))
+def decodeAllM (sc : Script) (tr : Trace) (bin : Bool) : List Bytes → Option (List (List Bytes))
   | [] => some []
-  | p :: r => match decode sc tr p, decodeAll sc tr r with
+  | p :: r => match decodeM sc tr bin p, decodeAllM sc tr bin r with
     | some a, some b => some (a :: b)
     | _, _ => none
+
+def decode (sc : Script) (tr : Trace) (p : Bytes) : Option (List Bytes) := decodeM sc tr sc.binary p
+def decodeAll (sc : Script) (tr : Trace) (ps : List Bytes) : Option (List (List Bytes)) := decodeAllM sc tr sc.binary ps
 
 def anyEv (p : Ev → Bool) (tr : Trace) : Bool := tr.any (fun e => p e.e)
 
@@ -299,29 +325,62 @@ def panelScriptIncomplete (tr : Trace) : Bool :=
 
 /-! ## C08 — receive framing is independent of segmentation and timing -/
 
+/-- One connection of a C08 script.  The last connection of the script stays up until the harness cancels; every
+earlier one ends with the panel closing at a message boundary (what the panel sent before is still "a sequence of
+messages a panel sends").  Clauses: the negotiated mode is the one the panel speaks on *this* connection; the
+deliveries inside the connection's window are exactly the messages; the client does not drop the connection before
+the panel closed it (last connection: before the cancellation). -/
+def checkConnC08 (limit : Nat) (sc : Script) (tr : Trace) (k : Nat) (acts : List Act) (w : Option Window)
+    (isLast : Bool) : Verdict :=
+  let bin := connBinary sc k
+  let da := dataActs acts
+  let an := if bin then analyseB limit (if isLast then sc.endMs else 0) da [] 0 0 else analyseA da []
+  let faultOk := if isLast then an.fault == .none else (match an.fault with | .closed _ => true | _ => false)
+  if ¬ faultOk then .skip "panel-breaks-contract"
+  else if bin ∧ (parse limit an.stream).2 != .done then .skip "stream-not-a-message-sequence"
+  else if ¬ bin ∧ (splitLF an.stream).2 != [] then .skip "stream-not-a-message-sequence"
+  else if bin ∧ ¬ inContractB limit tr k da [] none then .skip "frame-slower-than-contract"
+  else
+    match decodeAllM sc tr bin an.msgs with
+    | none => .fail "setup:decoder-table"
+    | some expected =>
+      match w with
+      | none => .fail "never-connected"
+      | some w =>
+        if ¬ conIs bin w.con.e then .fail "mode"
+        else if msgsOf w.body != expected then .fail "deliveries"     -- exactly those messages, each once, in order
+        else if isLast then
+          (if w.dis.isSome ∧ ¬ anyEv (· == .cancel) w.body then .fail "disconnect-inside-contract" else .ok)
+        else
+          -- dropped (if at all) only after the panel closed
+          (if w.dis.isSome ∧ ¬ anyEv (· == .cl k) w.body then .fail "disconnect-inside-contract" else .ok)
+
+def checkConnsC08 (limit : Nat) (sc : Script) (tr : Trace) : Nat → List (List Act) → List Window → Verdict
+  | _, [], _ => .ok
+  | k, acts :: rest, ws =>
+    match checkConnC08 limit sc tr k acts ws.head? rest.isEmpty with
+    | .fail c => .fail (if k = 0 ∧ rest.isEmpty then c else s!"{c}@conn{k}")
+    | .skip r => .skip r
+    | .ok => checkConnsC08 limit sc tr (k + 1) rest ws.tail
+
 def checkC08 (limit : Nat) (sc : Script) (tr : Trace) : Verdict :=
-  match sc.conns with
-  | [acts] =>
-    let da := dataActs acts
-    let an := if sc.binary then analyseB limit sc.endMs da [] 0 0 else analyseA da []
-    if an.fault != .none then .skip "panel-breaks-contract"
-    else if sc.binary ∧ (parse limit an.stream).2 != .done then .skip "stream-not-a-message-sequence"
-    else if ¬ sc.binary ∧ (splitLF an.stream).2 != [] then .skip "stream-not-a-message-sequence"
-    else if sc.binary ∧ ¬ inContractB limit tr 0 da [] none then .skip "frame-slower-than-contract"
-    else
-      match decodeAll sc tr an.msgs with
-      | none => .fail "setup:decoder-table"
-      | some expected =>
-        if anyEv (· == .panic) tr then .fail "panic"
-        else if panelScriptIncomplete tr then .fail "panel-script-incomplete"
-        else match timeOf isCon tr with
-          | none => .fail "never-connected"
-          | some _ =>
-            if ¬ anyEv (fun e => e == .con sc.binary []) tr then .fail "mode"
-            else if msgsOf tr != expected then .fail "deliveries"     -- exactly those messages, each once, in order
-            else if anyEv isDis (beforeCancel tr) then .fail "disconnect-inside-contract"
-            else .ok
-  | _ => .skip "not-a-single-connection-script"
+  if sc.conns.isEmpty then .skip "no-connection-script" else
+  let ws := windows (sc.conns.length + 2) tr
+  match checkConnsC08 limit sc tr 0 sc.conns ws with
+  | .skip r => .skip r
+  | v =>
+    -- global clauses come first in the report: they explain the per-connection ones
+    if anyEv (· == .panic) tr then .fail "panic"
+    else if panelScriptIncomplete tr then .fail "panel-script-incomplete"
+    else if (timeOf isCon tr).isNone then .fail "never-connected"
+    else match v with
+      | .fail c => .fail c
+      | _ =>
+        -- nothing else: every delivery lies inside a connection's window, and no connection beyond the scripted ones
+        -- delivered anything
+        if (msgsOf tr).length != ((ws.take sc.conns.length).map (fun w => (msgsOf w.body).length)).sum then
+          .fail "delivery-outside-the-scripted-connections"
+        else .ok
 
 /-! ## C10 — malformed or stalled streams are contained -/
 
@@ -330,11 +389,12 @@ def accTime (tr : Trace) (k : Nat) : Option Nat := timeOf (fun e => e == .acc k)
 def checkConnC10 (limit : Nat) (sc : Script) (tr : Trace) (k : Nat) (acts : List Act) (w : Option Window)
     (isLast : Bool) : Verdict :=
   let da := dataActs acts
-  let an := if sc.binary then analyseB limit (if isLast then sc.endMs else 0) da [] 0 0 else analyseA da []
+  let bin := connBinary sc k
+  let an := if bin then analyseB limit (if isLast then sc.endMs else 0) da [] 0 0 else analyseA da []
   match w with
   | none => .fail "never-connected"
   | some w =>
-    match decodeAll sc tr an.msgs with
+    match decodeAllM sc tr bin an.msgs with
     | none => .fail "setup:decoder-table"
     | some expected =>
       let delivered := msgsOf w.body
@@ -342,7 +402,7 @@ def checkConnC10 (limit : Nat) (sc : Script) (tr : Trace) (k : Nat) (acts : List
       | .unclear => .skip "stall-within-margin"
       | .none =>
         -- garbage / empty payloads of correct length: every frame still delivered, connection kept
-        if sc.binary ∧ ¬ inContractB limit tr k da [] none then .skip "frame-slower-than-contract"
+        if bin ∧ ¬ inContractB limit tr k da [] none then .skip "frame-slower-than-contract"
         else if delivered != expected then .fail "deliveries"
         else if w.dis.isSome ∧ ¬ anyEv (· == .cancel) w.body then .fail "disconnect-without-fault"
         else .ok
@@ -413,19 +473,44 @@ def interleaves : Nat → List Bytes → List (List (List Bytes)) → Bool
           | none => false
         | _ => false)
 
+/-- the trace after the n-th (1-based) `con` event -/
+def afterNthCon : Nat → Trace → Trace
+  | 0, tr => tr
+  | _ + 1, [] => []
+  | n + 1, e :: r => if isCon e.e then afterNthCon n r else afterNthCon (n + 1) r
+
+def isBig : Ev → Bool | .big _ _ _ _ => true | _ => false
+
+def stripPrefixB : Bytes → Bytes → Option Bytes
+  | l, [] => some l
+  | [], _ :: _ => none
+  | a :: l, b :: p => if a = b then stripPrefixB l p else none
+
+/-- The connection that is up at the end of the script (the last scripted one; earlier ones were lost): every list
+handed over after its `onconnect` — "while connected" — must be on the wire of *that* connection, completely, in
+order, in that connection's encoding, and nothing else (in particular nothing of lists handed over on an earlier
+connection, and nothing missing because someone else took a list). -/
 def checkC09 (sc : Script) (tr : Trace) : Verdict :=
-  if sc.conns.length != 1 then .skip "not-a-single-connection-script" else
+  if sc.conns.isEmpty then .skip "no-connection-script" else
+  let kLast := sc.conns.length - 1
+  let bin := connBinary sc kLast
   if anyEv (· == .panic) tr then .fail "panic" else
+  let ws := windows (sc.conns.length + 2) tr
+  match ws[kLast]? with
+  | none => .fail "never-connected"
+  | some w =>
+  if ¬ conIs bin w.con.e then .fail "mode" else
+  let after := afterNthCon (kLast + 1) tr
+  if anyEv isBig after then .skip "unlisted-submission-on-the-checked-connection" else
   if panelScriptIncomplete tr then .fail "bytes-missing-at-panel" else
-  if ¬ anyEv (fun e => e == .con sc.binary []) tr then .fail "mode" else
-  let rx := rxBytes 0 tr
+  let rx := rxBytes kLast tr
   match stripPrefixB rx probe with
   | none => .fail "probe"
   | some afterProbe =>
     let gs := List.range sc.subs.length
-    let pending := gs.map (fun g => subsOf (!sc.binary) g tr)
+    let pending := gs.map (fun g => subsOf (!bin) g after)
     let nsub := (pending.map List.length).sum
-    if sc.binary then
+    if bin then
       let p := parse 4294967296 afterProbe
       if p.2 != .done then .fail "stream-does-not-parse-into-frames"
       else if ¬ interleaves (nsub + 1) p.1 pending then .fail "frames-not-the-submissions-in-order"
@@ -438,11 +523,6 @@ def checkC09 (sc : Script) (tr : Trace) : Verdict :=
         else if ¬ interleaves (nsub + 1) p.1 pending then .fail "lines-not-the-submissions-in-order"
         else .ok
       | _ => .fail "flush-linefeed"
-where
-  stripPrefixB : Bytes → Bytes → Option Bytes
-    | l, [] => some l
-    | [], _ :: _ => none
-    | a :: l, b :: p => if a = b then stripPrefixB l p else none
 
 /-! ## C12 — auto-detection -/
 
